@@ -278,7 +278,7 @@ class Find(Relation):
     coq_case_type = "fcase"
     coq_model = "model_find"
     coq_imports = ["Tracts", "BpText", "C05_Model"]
-    budget = {"quick": 1500, "thorough": 10000}
+    budget = {"quick": 1200, "thorough": 10000}
     anchors = [("haptools/data/breakpoints.py", "Breakpoints._find_blocks")]
 
     def generate(self, rng, n, tier):
@@ -371,7 +371,7 @@ class Lookup(Relation):
     coq_case_type = "lcase"
     coq_model = "model_lookup"
     coq_imports = ["Tracts", "BpText", "C05_Model"]
-    budget = {"quick": 800, "thorough": 8000}
+    budget = {"quick": 700, "thorough": 8000}
     anchors = [("haptools/data/breakpoints.py", "Breakpoints.population_array"),
                ("haptools/data/breakpoints.py", "Breakpoints._find_blocks")]
 
@@ -492,7 +492,7 @@ class Codec(Relation):
     coq_case_type = "ecase"
     coq_model = "model_codec"
     coq_imports = ["Tracts", "BpText", "C05_Model"]
-    budget = {"quick": 500, "thorough": 4000}
+    budget = {"quick": 400, "thorough": 4000}
     anchors = [("haptools/data/breakpoints.py", "Breakpoints.encode"),
                ("haptools/data/breakpoints.py", "Breakpoints.recode"),
                ("haptools/data/breakpoints.py", "Breakpoints.population_array")]
@@ -750,7 +750,7 @@ class Read(Relation):
     coq_case_type = "rcase"
     coq_model = "model_read"
     coq_imports = ["Tracts", "BpText", "C05_Model"]
-    budget = {"quick": 300, "thorough": 3000}
+    budget = {"quick": 250, "thorough": 3000}
     max_cases_per_shard = 60
     anchors = [("haptools/data/breakpoints.py", "Breakpoints.__iter__"),
                ("haptools/data/breakpoints.py", "Breakpoints.read")]
@@ -873,7 +873,7 @@ class Write(Relation):
     coq_case_type = "wcase"
     coq_model = "model_write"
     coq_imports = ["Tracts", "BpText", "C05_Model"]
-    budget = {"quick": 250, "thorough": 2500}
+    budget = {"quick": 200, "thorough": 2500}
     max_cases_per_shard = 60
     anchors = [("haptools/data/breakpoints.py", "Breakpoints.write"),
                ("haptools/data/breakpoints.py", "Breakpoints.__iter__")]
